@@ -19,7 +19,6 @@ theorem el_head : Tea.Gen.fact_el_head = Tea.Doc.fact_el_head := rfl
 theorem el_tail : Tea.Gen.fact_el_tail = Tea.Doc.fact_el_tail := rfl
 theorem body_Program_Send : Tea.Gen.fact_body_Program_Send = Tea.Doc.fact_body_Program_Send := rfl
 theorem body_Program_handleCommands : Tea.Gen.fact_body_Program_handleCommands = Tea.Doc.fact_body_Program_handleCommands := rfl
-theorem body_Batch : Tea.Gen.fact_body_Batch = Tea.Doc.fact_body_Batch := rfl
 theorem el_case_BatchMsg : Tea.Gen.fact_el_case_BatchMsg = Tea.Doc.fact_el_case_BatchMsg := rfl
 
 end Tea.Props.Bridge.C02
